@@ -208,12 +208,15 @@ class Model:
 def run_real(src, env, T, **cfg):
     from chameleon import PageTemplate
     log = []
+    render_kw = {}
+    if 'render_target_language' in cfg:
+        render_kw['target_language'] = cfg.pop('render_target_language')
 
     def tr(msgid, domain=None, mapping=None, context=None, target_language=None, default=None):
         log.append((msgid, default, dict(mapping) if mapping else None, domain, context, target_language))
         return T(msgid, default, mapping)
     try:
-        return PageTemplate(src, translate=tr, **cfg)(v=env['v'], lang=env['lang']), log
+        return PageTemplate(src, translate=tr, **cfg)(v=env['v'], lang=env['lang'], **render_kw), log
     except Exception as e:
         return 'RAISED %s %s' % (type(e).__name__, str(e).split('\n')[0][:120]), log
 
@@ -272,8 +275,11 @@ def layer_macros(ctx, n):
 
         def dom(d):
             return ' i18n:domain="%s"' % d if d else ''
-        macro = ('<div%s><p metal:define-macro="m"><b i18n:translate="">in macro</b>'
-                 '<i metal:define-slot="s" i18n:translate="">slot default</i></p></div>' % dom(dm))
+        tm = rng.choice([None, "'fr'"])          # i18n:target around the macro's defining element (rendered in place)
+        rt = rng.choice([None, 'it'])            # render-time target_language argument
+        macro = ('<div%s%s><p metal:define-macro="m"><b i18n:translate="">in macro</b>'
+                 '<i metal:define-slot="s" i18n:translate="">slot default</i></p></div>' % (
+                     dom(dm), ' i18n:target="%s"' % tm if tm else ''))
         use = ('<div%s%s%s><u metal:use-macro="template.macros[\'m\']"><q metal:fill-slot="s"%s>'
                '<em i18n:translate="">filler text</em></q></u></div>' % (
                    dom(dc), ' i18n:context="%s"' % cc if cc else '', ' i18n:target="%s"' % tc if tc else '', dom(df)))
@@ -281,16 +287,18 @@ def layer_macros(ctx, n):
         if not filled:
             use = use.replace('<q metal:fill-slot="s"%s><em i18n:translate="">filler text</em></q>' % dom(df), '')
         src = macro + use
-        tl = 'de' if tc else None
-        want = [('in macro', 'in macro', None, dm, None, None), ('slot default', 'slot default', None, dm, None, None)]
+        tl = 'de' if tc else rt
+        tlm = 'fr' if tm else rt
+        want = [('in macro', 'in macro', None, dm, None, tlm), ('slot default', 'slot default', None, dm, None, tlm)]
         want.append(('in macro', 'in macro', None, dc, cc, tl))
         if filled:
             want.append(('filler text', 'filler text', None, df or dc, cc, tl))
         else:
             want.append(('slot default', 'slot default', None, dc, cc, tl))
-        got = run_real(src, {'v': 'V', 'lang': None}, T)
+        cfgkw = {'render_target_language': rt} if rt else {}
+        got = run_real(src, {'v': 'V', 'lang': None}, T, **cfgkw)
         ctx.mon('macro-layer-compared')
-        ctx.case(key=('macro', dm, dc, df, cc, tc, filled), nontrivial=True)
+        ctx.case(key=('macro', dm, dc, df, cc, tc, tm, rt, filled), nontrivial=True)
         if got[1] != want:
             ctx.violation('macro-translation-context', 'template %r\n  calls    %r\n  expected %r' % (src, got[1], want),
                           {'kind': 'macro', 'src': src})
